@@ -174,14 +174,15 @@ Proof.
   split; [cbn; rewrite (se_kids _ _ Hse); reflexivity|]. exact Hd.
 Qed.
 
-(* the name _bring_to_top gives: add_to_name + "/" + name, or the name itself under the top definition *)
-Definition joinp (add_to_name nm : str) : str :=
-  match add_to_name with [] => nm | _ => add_to_name ++ str_slash ++ nm end.
-(* ... on the stored value: an element without a name keeps none (and only completes under "") *)
-Definition joino (add_to_name : str) (nm : option str) : option str :=
-  match add_to_name with [] => nm | _ => option_map (fun n => add_to_name ++ str_slash ++ n) nm end.
-Lemma joino_some a nm : joino a (Some nm) = Some (joinp a nm).
-Proof. destruct a; reflexivity. Qed.
+(* _name_in_path on a stored value: a missing name counts as the empty string *)
+Definition oe (nm : option str) : str := match nm with Some n => n | None => [] end.
+Lemma name_in_path_oe s e : name_in_path s e = oe (get_str s e str_NAME).
+Proof. reflexivity. Qed.
+(* the name _bring_to_top gives, on the stored value: under the top definition itself (no enclosing
+   instance, [None]) the element keeps its name or stays unnamed; below an enclosing instance with the
+   hierarchical name a - possibly "" - it is a + "/" + name *)
+Definition joino (add_to_name : option str) (nm : option str) : option str :=
+  match add_to_name with None => nm | Some a => Some (a ++ str_slash ++ oe nm) end.
 
 Lemma get_str_upd_same s s' e k v : data s' = upd (data s) e (sassoc_set k (VStr v) (data s e)) -> get_str s' e k = Some v.
 Proof. intro H. unfold get_str. rewrite H, upd_same, sassoc_set_same. reflexivity. Qed.
@@ -191,10 +192,9 @@ Definition mrel (s : state) (e : id) : rel := if is_cable s e then RCables else 
 Lemma mrel_cases s e : mrel s e = RChildren \/ mrel s e = RCables.
 Proof. unfold mrel. destruct (is_cable s e); auto. Qed.
 
-Record brought (x : xstate) (e : id) (addn : str) (topd : id) (br_p : id) (x' : xstate) : Prop := mkBrought {
+Record brought (x : xstate) (e : id) (addn : option str) (topd : id) (br_p : id) (x' : xstate) : Prop := mkBrought {
   br_kind : is_kind (st x) e (rel_child (mrel (st x) e)) = true;
   br_par0 : par (st x) (mrel (st x) e) e = Some br_p;
-  br_named : addn <> [] -> get_str (st x) e str_NAME <> None;
   br_keep : keep (st x) (st x');
   br_par : forall r' y, par (st x') r' y = if rel_eqb r' (mrel (st x) e) && Nat.eqb y e then Some topd else par (st x) r' y;
   br_kids : forall r' y, kids (st x') r' y =
@@ -240,7 +240,7 @@ Proof.
 Qed.
 
 Lemma bring_to_top_eff x e addn topd x' :
-  bring_to_top x e addn topd = (x', None) -> exists a p, addn = Some a /\ brought x e a topd p x'.
+  bring_to_top x e addn topd = (x', None) -> exists p, brought x e addn topd p x'.
 Proof.
   intro E. unfold bring_to_top in E.
   set (cable := is_cable (st x) e) in *. change (if cable then RCables else RChildren) with (mrel (st x) e) in E.
@@ -255,30 +255,22 @@ Proof.
   destruct (op_remove_eff _ _ _ _ _ Hr Erm) as [Kp3 [Hd3 [_ [Hp3 Hk3]]]]. cbn [st uniq_ctr flat_ctr] in E.
   assert (Hn3 : get_str s3 e str_NAME = get_str (st x) e str_NAME).
   { unfold get_str. rewrite Hd3, (Hd1e str_NAME NAME_ne_IDENT). reflexivity. }
-  cbv zeta in E. rewrite Hn3 in E.
-  set (nno := match addn with None => None | Some [] => _ | Some (_ :: _) => _ end) in E.
-  destruct nno as [nn|] eqn:Hnn; [|discriminate E].
-  assert (Hadd : exists a, addn = Some a /\ nn = joino a (get_str (st x) e str_NAME) /\
-                           (a <> [] -> get_str (st x) e str_NAME <> None)).
-  { unfold nno in Hnn. destruct addn as [[|c0 a0]|]; [| |discriminate Hnn].
-    - injection Hnn as <-. exists []. split; [reflexivity|]. split; [reflexivity|]. intro H; contradiction.
-    - destruct (get_str (st x) e str_NAME) as [nm|]; [|discriminate Hnn]. injection Hnn as <-.
-      exists (c0 :: a0). split; [reflexivity|]. split; [reflexivity|]. intros _. discriminate. }
-  destruct Hadd as [a [-> [Hnn2 Hnamed]]]. clear Hnn nno.
+  cbv zeta in E. rewrite name_in_path_oe, Hn3 in E.
+  set (nn := match addn with Some a => _ | None => _ end) in E.
+  assert (Hnn2 : nn = joino addn (get_str (st x) e str_NAME)) by reflexivity.
   unfold liftR at 1 in E.
   destruct (op_set_name s3 e nn) as [s4 [er|]] eqn:Esn; [discriminate E|].
   assert (Hnone : nn = None -> get_str s3 e str_NAME = None).
-  { intro H0. rewrite Hn3. rewrite Hnn2 in H0. destruct a; [exact H0|]. unfold joino in H0. destruct (get_str (st x) e str_NAME); [discriminate H0|reflexivity]. }
+  { intro H0. rewrite Hn3. rewrite Hnn2 in H0. destruct addn as [a|]; [cbn [joino] in H0; discriminate H0|exact H0]. }
   destruct (op_set_name_eff _ _ _ _ Esn Hnone) as [Hse4 [Hd4o [Hd4e Hd4n]]]. cbn [st uniq_ctr flat_ctr] in E.
   unfold liftR at 1 in E. destruct (op_add s4 r topd e None) as [s5 [er|]] eqn:Ead; [discriminate E|].
   destruct (op_add_eff _ _ _ _ _ Hr Ead) as [Kp5 [_ [Hke [Hp5 [Hk5 [Hd5 Hd5e]]]]]]. cbn [st uniq_ctr flat_ctr] in E.
   injection E as <-. cbn [st uniq_ctr flat_ctr].
   assert (Hke0 : is_kind (st x) e (rel_child r) = true).
   { unfold is_kind in *. rewrite (se_kind _ _ Hse4), (kp_kind _ _ Kp3), (se_kind _ _ Hse1) in Hke. exact Hke. }
-  exists a, d. split; [reflexivity|]. constructor; cbn [st uniq_ctr flat_ctr]; fold r.
+  exists d. constructor; cbn [st uniq_ctr flat_ctr]; fold r.
   - exact Hke0.
   - rewrite <- (se_par _ _ Hse1). exact Hpar.
-  - exact Hnamed.
   - apply (keep_trans _ (st x2)); [apply keep_struct; exact Hse1|]. apply (keep_trans _ s3); [exact Kp3|].
     apply (keep_trans _ s4); [apply keep_struct; exact Hse4|exact Kp5].
   - intros r' y. rewrite Hp5, (se_par _ _ Hse4), Hp3, (se_par _ _ Hse1). rewrite !upd2_at.
